@@ -38,3 +38,17 @@ chk('C05', 'exploration',
     'runtime monitoring: independent per-bin oracle (exact tail) + metamorphic '
     'relations over generated comparisons',
     'DESIGN.md section 4 (C05)')
+chk('C06', 'exploration',
+    'Flags of the real static methods and of the full '
+    'TestBonferroni/TestHolmBonferroni(TestStudent) path are compared with the '
+    'definitions evaluated in plain floats (tie-group aware for Holm): '
+    'complete enumeration of all arrays of 1..3 (thorough 1..4) bins over an '
+    'alphabet made of 0, 1, NaN and every threshold level/j with both float '
+    'neighbours, in every shape, for two levels; random arrays with ties / '
+    'NaN / values around the per-rank thresholds; positions under permutation '
+    'and reshape; inclusion and pass-through relations.',
+    'the overall level of the full path is the one the test object reports '
+    '(alpha/2); ties in Holm accepted under any rank assignment',
+    'runtime monitoring: reference-definition oracle over exhaustively '
+    'enumerated small arrays and random arrays, metamorphic position checks',
+    'DESIGN.md section 4 (C06)')
